@@ -507,6 +507,13 @@ class HyperscanTokenizer(Tokenizer):
         matches = []
 
         def on_match(index, start, end, flags, context):
+            # hyperscan works on bytes, so a boundary character class may be
+            # satisfied by part of a multi-byte character: widen the hit to
+            # whole characters
+            while text_bytes[start] & 0xC0 == 0x80:
+                start -= 1
+            while end < len(text_bytes) and text_bytes[end] & 0xC0 == 0x80:
+                end += 1
             matches.append((self.extractors[index], (start, end)))
 
         self.hyperscan_db.scan(text_bytes, match_event_handler=on_match)
